@@ -33,7 +33,7 @@ import ast
 
 from ..engine import Engine
 from ..report import Report
-from ..facts import holds, canon
+from ..facts import holds, canon, path_of
 from ..model import walk_own
 from ..resolve import Ctx
 from .. import regexast as rx
@@ -128,6 +128,21 @@ def run(e: Engine, rep: Report):
              'under a pattern with an ASCII-only character class changes '
              'valid UTF-8 addresses')
     x13(e, rep)
+    rep.rule('X15', 'Envelope.flatten renders the headers as they are at '
+             'the call: it keeps no memo (no attribute of the envelope is '
+             'written by flatten or the helpers it runs) - header objects '
+             'are edited in place by policies, so remembered bytes go '
+             'stale')
+    x15(e, rep, 'X15')
+    rep.rule('X16', 'HTTP media type: every Content-Type the relay can '
+             'write is one the edge\'s request validator accepts')
+    x16(e, rep)
+    rep.rule('X14', '= C05-R5.16: the receiving side removes stuffed dots '
+             'and recognises the end of the data for every finished line '
+             '(what the relay\'s DataSender stuffs, the edge\'s reader '
+             'un-stuffs)')
+    from . import c05 as _c05
+    _c05.r516(e, rep, 'X14')
     rep.floor('X1', 4, 'command framing obligations')
     rep.floor('X4', 6, 'HTTP agreement obligations')
 
@@ -1487,3 +1502,94 @@ def cross_keywords(e: Engine, rep: Report, rule: str):
                       % (pname, pat[0], sites[verb].name, head,
                          verb.decode(), head.decode(), verb.decode()),
                       loc=n.loc(), reason='%s rejects %r' % (pname, head))
+
+
+# --------------------------------------------------------------------- X15
+def x15(e: Engine, rep: Report, rule: str = 'X15'):
+    ctx = e.method_ctx(ENVELOPE, 'flatten')
+    g = e.build(ctx, raises=lambda b, nn, r: set(),
+                inline=e.inline_same_self(), max_depth=3)
+    where = ctx.func.qname
+    rep.functions.add(where)
+    rep.evaluations += 1
+    bad = None
+    for n in g.of_kind('stmt'):
+        a = n.ast
+        tg = a.targets if isinstance(a, ast.Assign) else (
+            [a.target] if isinstance(a, (ast.AugAssign, ast.AnnAssign))
+            else [])
+        for t0 in tg:
+            for t in (t0.elts if isinstance(t0, (ast.Tuple, ast.List))
+                      else [t0]):
+                p = path_of(t, n.frame) or ''
+                if p.startswith('self.'):
+                    bad = (n, p)
+    for n in g.calls():
+        if isinstance(n.ast.func, ast.Name) and \
+                n.ast.func.id == 'setattr' and n.ast.args and \
+                (path_of(n.ast.args[0], n.frame) or '') == 'self':
+            bad = (n, 'setattr(self, ...)')
+    rep.check(bad is None, rule, where, 'flatten() keeps no memo',
+              'flatten() writes `%s`: header bytes remembered from an '
+              'earlier call are handed out again after a policy edited '
+              'envelope.headers in place (the Message object is the same, '
+              'its content is not) - the relay sends a header block the '
+              'envelope no longer holds' % (bad[1] if bad else ''),
+              loc=bad[0].loc() if bad else ctx.func.loc(),
+              reason='no write to the envelope in flatten()')
+
+
+# --------------------------------------------------------------------- X16
+def x16(e: Engine, rep: Report):
+    rctx = e.method_ctx(HTTP_CLIENT, '_build_headers')
+    g = e.build(rctx, raises=lambda b, nn, r: set(),
+                inline=e.inline_same_self(), max_depth=3)
+    rep.functions.add(rctx.func.qname)
+    sent = []
+    for n in g.nodes:
+        if n.kind not in ('stmt', 'call'):
+            continue
+        for x in ast.walk(n.ast):
+            if isinstance(x, ast.Tuple) and len(x.elts) == 2 and \
+                    isinstance(x.elts[0], ast.Constant) and \
+                    isinstance(x.elts[0].value, str) and \
+                    x.elts[0].value.lower() == 'content-type':
+                for v, vf in common.values_of(g, x.elts[1], n.frame):
+                    sent.append((n, v))
+    ectx = e.method_ctx(WSGI, '_validate_request')
+    accepted = set()
+    if ectx is not None:
+        rep.functions.add(ectx.func.qname)
+        for x in walk_own(ectx.func.node):
+            if isinstance(x, ast.Compare) and any(
+                    isinstance(y, ast.Name) and 'type' in y.id.lower()
+                    for y in ast.walk(x.left)):
+                for c in x.comparators:
+                    for y in ast.walk(c):
+                        if isinstance(y, ast.Constant) and \
+                                isinstance(y.value, str) and '/' in y.value:
+                            accepted.add(y.value)
+    if not sent or not accepted:
+        rep.unknown('X16', rctx.func.qname, 'media type agreement',
+                    'cannot read the Content-Type the relay writes / the '
+                    'types the edge accepts', loc=rctx.func.loc())
+        return
+    seen = set()
+    for n, v in sent:
+        key = ast.unparse(v)
+        if key in seen:
+            continue
+        seen.add(key)
+        rep.evaluations += 1
+        if not (isinstance(v, ast.Constant) and isinstance(v.value, str)):
+            rep.unknown('X16', rctx.func.qname, 'Content-Type `%s`' % key,
+                        'not a literal', loc=n.loc())
+            continue
+        rep.check(v.value in accepted, 'X16', rctx.func.qname,
+                  'Content-Type %r is accepted by the edge' % v.value,
+                  'the relay can send Content-Type %r, the edge\'s '
+                  'validator accepts only %s: such a message is refused '
+                  'with 415 - nothing is queued and the relay reports a '
+                  'permanent failure the edge never decided'
+                  % (v.value, sorted(accepted)), loc=n.loc(),
+                  reason='in the edge\'s accepted set')
